@@ -140,10 +140,10 @@ class MetaArg(Unit):
                  "pulsarbat.core:Signal.start_time")
     witnesses = 1
 
-    def __init__(self, cls, arg, variant, assign=False):
-        self.cls, self.arg, self.variant, self.assign = cls, arg, variant, assign
-        self.name = f"meta-{cls.__name__}-{arg}-{variant}{'-assign' if assign else ''}"
-        self.bounds = {"class": cls.__name__, "argument": arg, "variant": variant, "by_assignment": assign}
+    def __init__(self, cls, arg, variant, assign=False, nchan=2):
+        self.cls, self.arg, self.variant, self.assign, self.nchan = cls, arg, variant, assign, nchan
+        self.name = f"meta-{cls.__name__}-{arg}-{variant}{'-assign' if assign else ''}{'' if nchan == 2 else f'-nchan{nchan}'}"
+        self.bounds = {"class": cls.__name__, "argument": arg, "variant": variant, "by_assignment": assign, "nchan": nchan}
 
     def build(self, S):
         v = S.real("v")
@@ -185,7 +185,7 @@ class MetaArg(Unit):
 
     def call(self, a):
         cls = self.cls
-        shape = tuple(2 if r is None else r for r in REQ[cls][0])
+        shape = tuple((self.nchan if i == 1 else 2) if r is None else r for i, r in enumerate(REQ[cls][0]))
         dt = REQ[cls][1][0] if REQ[cls][1] else np.float64
         z = np.zeros(shape, dtype=dt)
         kw = ctor_kwargs(cls)
@@ -369,6 +369,9 @@ def units(tier):
     for v in ("bottom", "center", "top", "middle", "Center", ""):
         us.append(MetaArg(pb.RadioSignal, "freq_align", v))
         us.append(MetaArg(pb.BasebandSignal, "freq_align", v, assign=True))
+        # (an odd channel count forces 'center' - but only for a value from the allowed set)
+        us.append(MetaArg(pb.IntensitySignal, "freq_align", v, nchan=3))
+        us.append(MetaArg(pb.RadioSignal, "freq_align", v, assign=True, nchan=1))
     for v in ("linear", "circular", "Linear", "elliptical"):
         us.append(MetaArg(pb.DualPolarizationSignal, "pol_type", v, assign=(v in ("circular", "Linear"))))
     for v in ("none", "dict", "pairs", "int", "string", "list"):
